@@ -12,7 +12,7 @@ def cut(s, n):
     return s if len(s) <= n else s[: n - 1] + "…"
 
 
-print("| Seeded change | Property | Needs | Suite passes / demo fails with / passes without | Caught by (quick checks, final state) | Rounds 3-12: caught by, as the checks stood when the change arrived | First witness of the property's own check |")
+print("| Seeded change | Property | Needs | Suite passes / demo fails with / passes without | Caught by (quick checks, final state) | Rounds 3-15: caught by, as the checks stood when the change arrived | First witness of the property's own check |")
 print("|---|---|---|---|---|---|---|")
 for d in sorted(glob.glob(os.path.join(V, "seeded", "*"))):
     mp = os.path.join(d, "meta.json")
@@ -24,7 +24,7 @@ for d in sorted(glob.glob(os.path.join(V, "seeded", "*"))):
     wit = own.get("violations", [""])
     asis = ""
     ap = os.path.join(d, "meta.asis.json")
-    if os.path.exists(ap) and os.path.basename(d)[3:4] in ("c", "d", "e", "f", "g", "h", "i", "j", "k", "l", "m"):
+    if os.path.exists(ap) and os.path.basename(d)[3:4] in "cdefghijklmnopq":
         a = json.load(open(ap))
         asis = ", ".join(a.get("caught_by", [])) or "**none**"
     print("| `%s` | %s | %s | %s / %s / %s | %s | %s | %s |" % (
